@@ -200,12 +200,15 @@ func (c *probeCheck) RunCase(w *core.Worker, idx int, seed uint64, res *core.Cas
 					nt1 = true
 				}
 			}
+			if rng.Chance(1, 4) && blocking(res) == 0 && !choicePool {
+				c.dryReplaceProbe(run, step, rng)
+			}
 			dryKey := ""
 			doDry := rng.Chance(1, 2)
-			if doDry && len(res.Findings) == 0 {
+			if doDry && blocking(res) == 0 {
 				dryKey = c.dryProbe(run, step)
 			}
-			if len(res.Findings) > 0 {
+			if blocking(res) > 0 {
 				break
 			}
 			out, ok := run.commit(step)
@@ -315,16 +318,50 @@ func (c *probeCheck) dryProbe(run *histRun, step []stepIntent) string {
 	return fixture.PayloadKey(out.rsp.GetUpdate(), out.rsp.GetDelete())
 }
 
+// dryReplaceProbe: a dry run that carries a VALID replace intent (alone or next to the intents of the step) changes nothing either.
+func (c *probeCheck) dryReplaceProbe(run *histRun, step []stepIntent, rng *core.Rng) {
+	vals := map[string]string{}
+	n := 1 + rng.Intn(4)
+	for j := 0; j < n; j++ {
+		l := run.h.pool[rng.Intn(len(run.h.pool))]
+		if isChoiceMember(l.XPath) {
+			continue
+		}
+		vals[l.XPath] = l.Vals[rng.Intn(len(l.Vals))]
+	}
+	if len(vals) == 0 {
+		vals["/sys/descr"] = "a"
+	}
+	repl := stepIntent{Owner: "repl", Prio: 2, Vals: vals, Kind: "replace-intent"}
+	var with []stepIntent
+	if rng.Bool() {
+		with = step
+	}
+	before := run.snap()
+	id := run.nextID() + "dryrepl"
+	out := run.set(id, with, &repl, time.Minute, true)
+	what := fmt.Sprintf("dry run with the valid replace intent %s and [%s]", model.SortedMap(vals), stepString(with))
+	run.canon = append(run.canon, "DRY-REPLACE "+what)
+	if out.panicked {
+		return
+	}
+	if out.convErr != nil || out.err != nil || out.rejected {
+		run.res.Count("dry_replace_probes_refused", 1)
+	}
+	run.res.Count("dry_replace_probes", 1)
+	run.expectUnchanged("C03/dry-run-with-replace-intent", what, before)
+}
+
 // invalidProbe issues one request that must be refused; returns true if a rejection was observed.
 func (c *probeCheck) invalidProbe(run *histRun, next []stepIntent, rng *core.Rng) bool {
 	p := invalidProbes[rng.Intn(len(invalidProbes))]
-	mode := rng.Intn(4) // 0 alone, 1 mixed with the valid intents of the next step, 2 as replace intent alone, 3 replace + valid intents
+	mode := rng.Intn(5) // 0 alone, 1 mixed with the valid intents of the next step, 2 as replace intent alone, 3 replace + valid intents, 4 invalid intent next to a VALID replace intent
 	dry := rng.Chance(1, 4)
 	bad := stepIntent{Owner: "bad", Prio: 3, Vals: p.vals, Kind: "invalid:" + p.class}
 	if p.class == "must-via-running" {
 		bad.Owner, bad.Prio = "m1", 90
 		if mode >= 2 {
-			mode -= 2 // not as replace intent
+			mode = mode % 2 // not as replace intent
 		}
 	}
 	var step []stepIntent
@@ -339,6 +376,9 @@ func (c *probeCheck) invalidProbe(run *histRun, next []stepIntent, rng *core.Rng
 	case 3:
 		repl = &bad
 		step = append([]stepIntent{}, next...)
+	case 4:
+		repl = &stepIntent{Owner: "repl", Prio: 2, Vals: map[string]string{"/sys/descr": []string{"a", "b", "c"}[rng.Intn(3)], "/sys/mtu-max": "200"}, Kind: "replace-intent"}
+		step = []stepIntent{bad}
 	}
 	what := fmt.Sprintf("invalid(%s) mode=%d dry=%v", p.class, mode, dry)
 	before := run.snap()
@@ -352,7 +392,7 @@ func (c *probeCheck) invalidProbe(run *histRun, next []stepIntent, rng *core.Rng
 	}
 	surfaced := out.convErr != nil || out.err != nil || out.rejected
 	if !surfaced {
-		if repl != nil {
+		if repl != nil && mode != 4 {
 			run.res.Violate("C03/failing-replace-intent-reported-as-success", "%s: TransactionSet returned success without any intent error\n  replace intent: %s", what, model.SortedMap(p.vals))
 		} else {
 			// the server does not enforce this instance: whether it should is C04's question; undo and go on
@@ -365,7 +405,12 @@ func (c *probeCheck) invalidProbe(run *histRun, next []stepIntent, rng *core.Rng
 		return false
 	}
 	run.res.Count("rejections_observed", 1)
-	run.expectUnchanged("C03/rejected", what, before)
+	if mode == 4 {
+		// (own key: the replace intent is processed - validated, sent, written to running - before the other intents are looked at)
+		run.expectUnchanged("C03/rejected-next-to-a-valid-replace-intent", what, before)
+	} else {
+		run.expectUnchanged("C03/rejected", what, before)
+	}
 	if out.err != nil && strings.Contains(out.err.Error(), "context deadline") {
 		run.res.Inconclusive("C03/probe-timeout", "%s: %v", what, out.err)
 	}
@@ -651,4 +696,16 @@ func (c *probeCheck) resubmitProbe(run *histRun, rng *core.Rng) bool {
 		run.res.Violate("C09/running-changed", "%s: %s", what, d)
 	}
 	return shadowed || len(step) >= 2
+}
+
+// blocking counts the findings that end a history: everything except the recorded replace-intent finding, after which the
+// history goes on (the stores are compared relative to their state before each probe).
+func blocking(res *core.CaseResult) int {
+	n := 0
+	for _, f := range res.Findings {
+		if !strings.HasPrefix(f.Key, "C03/rejected-next-to-a-valid-replace-intent/") {
+			n++
+		}
+	}
+	return n
 }
